@@ -55,6 +55,11 @@ def import_sketchnu():
     if not f.startswith(REPO + "/"):
         raise MachineryError(f"sketchnu imported from {f}, not from {REPO}")
     _T_IMPORT[0] = time.time() - t0
+    # pristine snapshot of the library's global state (module-level containers, class data
+    # attributes), taken before anything ran; explorers and replays reset to it
+    from . import bfs
+
+    bfs.globals_state()
     return sketchnu
 
 
